@@ -84,7 +84,9 @@ class ResultFlow(object):
                     if p in RESULT_ADAPTERS and t["args"]:
                         pl = place_of(t["args"][0])
                         if pl is not None and not pl["p"]:
-                            o = self.origin_call(pl["l"]) or bb
+                            o = self.origin_call(pl["l"])
+                            if o is None:       # (block 0 is a valid origin: no `or`)
+                                o = bb
                     self.forwarded[bb] = ("fwd", o)
 
     def _ret_assign(self, bb, rv):
